@@ -15,6 +15,14 @@ SPEC = {
             "through every 16-bit accessor, all 2^24 byte triples through every 24-bit accessor, all 2^16 top-halves x 6 low words through every "
             "48-bit accessor. Text part: cstr/line/read/readx/pread/preadx/skip/skip_if/getv/peek/go/truncate/sub/sub_bits against a cursor "
             "model. Bit part: BitWriter write/truncate/reset and BitReader read/pread/skip/go/eof against an MSB-first bit vector. "
+            "Huge part (shards 0 and 1): sparse 6 GiB + 5 MiB MAP_NORESERVE mappings with position-keyed bytes planted +-16 KiB around byte "
+            "2^28, 2^29, 2^30, 2^31, 2^32, 2^32+2^31 (= bit 2^31 .. 2^35+2^34), at the start and at the end; every StringReader family (42 typed "
+            "kinds x get/peek/pget, read/readx/pread/preadx x string/pointer forms, getv/peek/pgetv, get_cstr/pget_cstr/get_line, skip/skip_if/go/"
+            "truncate/ctor offset/where/size/remaining/eof, sub/subx/sub_bits/subx_bits incl. nested), BitReader read/pread/skip/go/truncate/ctor "
+            "offset/observers and BufferWriter put/pput (34 kinds)/write/pwrite at offsets just below, straddling and above each threshold, plus "
+            "single calls with distances/sizes of 2^31 .. 2^32+2^31 bytes (skip, getv, peek, pgetv, get<T>(advance,size), sub sizes, bit skips up to "
+            "2^35+2^34; raw pointer-form transfers of > 2^32 bytes through windows onto one 8 MiB memfd), judged by a sparse page-map model, the "
+            "independent decoder and uint64_t cursor arithmetic. "
             "distinct_nontrivial = distinct (writer, put|pput, kind), (base type, value class), (get|peek|pget, reader kind), pput position, "
             "and text/bit operation-shape classes observed.",
     "level_text": "Every execution explored is judged by an oracle that shares no code with phosg (pure shift/mask arithmetic), so a violation is a "
@@ -42,6 +50,18 @@ SPEC = {
         "own:copy of an owning reader after the original was destroyed", "reader:ctor(shared_ptr,offset):caller-reference-dropped",
         "bits:reader:ctor(shared_ptr,offset):caller-reference-dropped", "enumerated:alias-cases", "enumerated:ownership-cases",
         "w:Block:put<T>", "w:SW:reset", "w:SW:extend_to(default-fill)", "w:BW:pwrite(string)",
+        # huge sparse buffers: a run in which the stage silently did not happen is inconclusive
+        "huge:readers-done", "huge:writers-done",
+        "huge:typed:2^31", "huge:typed:2^32", "huge:typed:2^32+2^31", "huge:typed:end",
+        "huge:raw-skip:2^31", "huge:raw-skip:2^32", "huge:raw-skip:2^32+2^31", "huge:raw-skip:end",
+        "huge:cstr-line:2^31", "huge:cstr-line:2^32", "huge:cstr-line:2^32+2^31", "huge:cstr-line:end",
+        "huge:line-shape:CRLF", "huge:line-shape:LF", "huge:line-shape:unterminated-last",
+        "huge:cursor:2^32", "huge:sub:2^31", "huge:sub:2^32", "huge:sub:2^32+2^31", "huge:distance:>=2^32",
+        "huge:bits-read:2^28", "huge:bits-read:2^29", "huge:bits-read:2^30", "huge:bits-read:2^31", "huge:bits-read:2^32",
+        "huge:bits-read:2^32+2^31", "huge:bits-read:end", "huge:bits-cursor:2^32", "huge:bit-distance:>=2^35",
+        "huge:bw-pput:2^31", "huge:bw-pput:2^32", "huge:bw-pput:2^32+2^31", "huge:bw-pput:end",
+        "huge:bw-pwrite:2^32", "huge:bw-put:2^31", "huge:bw-put:2^32", "huge:bw-put:2^32+2^31", "huge:bw-put:end",
+        "huge:transfer:BufferWriter:>=2^32", "huge:transfer:StringReader:>=2^32",
     ],
     "exhaustive": {"quick": False, "thorough": False},
     "exhaustive_note": "complete in both tiers: every 16-bit value x every 16-bit put/get kind; every 24-bit byte triple x get/peek/pget u24b/u24l/s24b/s24l; "
@@ -50,6 +70,9 @@ SPEC = {
         "native (unsuffixed) values are read back through get<T>/pget<T> with T itself at suitably aligned addresses and through an alignment-1 POD wrapper elsewhere",
         "NaN payload preservation is observed on x86-64 SSE (float/double passed in xmm registers); an x87 ABI would quiet signalling NaNs outside phosg's control",
         "aliasing: raw blocks (write) and by-reference values (put<T>, in-place pput<T>) whose storage is the writer's own buffer are demanded; pput<T> with an aliased reference AND growth is driven too (--arg alias_pput=1) since fix c02-3 made it safe",
+        "offsets / sizes beyond 2^32 are driven for the classes that can sit on caller-provided storage (StringReader, BitReader, BufferWriter); "
+        "StringWriter, BitWriter, BlockStringWriter and the string-returning read forms own their storage, so instances or results of more than 4 GiB would need that much real memory and are not driven; "
+        "the huge part needs 2 x 6 GiB of virtual address space with overcommit (MAP_NORESERVE) and memfd_create; if either is unavailable the run is inconclusive, not held",
         "only in-range operations are issued (bounds behaviour belongs to C02); get_line is driven only over text where a CR is either part of CRLF or followed by an ordinary byte",
     ],
 }
